@@ -42,7 +42,7 @@ def match_paren(txt, i, o="(", c=")"):
 
 def function_text(src, name):
     """(parameter text, body text without the outer braces) of `seq_t name(...) {`"""
-    ms = list(re.finditer(r"^(?:seq_t|void|idx_t|int|bool)\s+%s\s*\(" % re.escape(name), src, flags=re.M))
+    ms = list(re.finditer(r"^(?:seq_t|void|idx_t|int|bool|DTWWps)\s+%s\s*\(" % re.escape(name), src, flags=re.M))
     if len(ms) != 1:
         raise TranslateError("function %s: %d definitions found" % (name, len(ms)))
     p0 = ms[0].end() - 1
@@ -235,6 +235,9 @@ class Parser:
         if x in STRUCT_TYPES:
             self.eat()
             name = self.eat()
+            if self.peek() == ";":
+                self.eat()
+                return [self.new(k="structdecl", sty=STRUCT_TYPES[x], name=name)]
             self.eat("=")
             init = self.expr()
             self.eat(";")
@@ -503,6 +506,7 @@ def always_exits(stmts):
 
 
 OUT_ARRAYS = []       # arrays the function under translation returns next to its value
+LOCAL_STRUCTS = {}    # local struct variable -> member names (a function may return one)
 
 
 def live_block(stmts, out, ctx, ann):
@@ -528,6 +532,8 @@ def live_block(stmts, out, ctx, ann):
             live.add("ok")
         elif k == "structinit":
             live = {x for x in live if not x.startswith(s["name"] + "_")} | uses(s["call"])
+        elif k == "structdecl":
+            live = {x for x in live if not x.startswith(s["name"] + "_")}
         elif k == "assign":
             if s["lhs"][0] == "var":
                 live.discard(s["lhs"][1])
@@ -560,7 +566,10 @@ def live_block(stmts, out, ctx, ann):
         elif k == "continue":
             live = set(ctx[1])
         elif k == "return":
-            live = uses(s["e"]) | {"ok"} | set(OUT_ARRAYS)
+            if s["e"][0] == "var" and s["e"][1] in LOCAL_STRUCTS:
+                live = {s["e"][1] + "_" + f for f in LOCAL_STRUCTS[s["e"][1]]} | {"ok"}
+            else:
+                live = uses(s["e"]) | {"ok"} | set(OUT_ARRAYS)
         elif k == "retstate":
             live = set(s["vars"]) | {"ok"}
         else:
@@ -609,7 +618,7 @@ class Emitter:
             elif s["k"] == "alloc":
                 self.types[s["name"]] = "arr"
                 self.types[s["name"] + "_len"] = "Z"
-            elif s["k"] == "structinit":
+            elif s["k"] in ("structinit", "structdecl"):
                 members = self.struct_defs[s["sty"]]
                 self.struct_vars[s["name"]] = members
                 for f, ty in members.items():
@@ -626,8 +635,9 @@ class Emitter:
                         raise TranslateError("unknown settings field %s" % f)
                     self.used_fields.add(f)
         self.ann = {}
-        global OUT_ARRAYS
+        global OUT_ARRAYS, LOCAL_STRUCTS
         OUT_ARRAYS = list(self.out_arrays)
+        LOCAL_STRUCTS = {n: list(m) for n, m in self.struct_vars.items()}
         live_in = live_block(body_stmts, set(), (set(), set()), self.ann)
         pnames = {n for ty, n in params} | {"ok"}
         undefined = live_in - pnames
@@ -853,6 +863,8 @@ class Emitter:
                 ft, _, _ = self.ex(s["fill"], "cost")
                 return ("let %s_len := %s in\nlet %s := amake (fun _ => %s) %s_len in\n" % (n, t, n, ft, n)) + go(defined | {n, n + "_len"})
             return ("let %s_len := %s in\nlet %s := amake junk_%s %s_len in\n" % (n, t, n, n, n)) + go(defined | {n, n + "_len"})
+        if kind == "structdecl":
+            return go(defined - {s["name"] + "_" + f for f in self.struct_vars[s["name"]]})
         if kind == "structinit":
             # the members are the values the called function returned: parameters of the generated definition
             c = s["call"]
@@ -962,8 +974,14 @@ class Emitter:
         if kind == "return":
             if ctx is not None:
                 raise TranslateError("%s: return inside a loop" % self.fname)
-            self.check_defined(uses(s["e"]), defined, s)
             e = s["e"]
+            if e[0] == "var" and e[1] in self.struct_vars:
+                # return of a local struct: the tuple of its members, in the order of the struct definition
+                ms = [e[1] + "_" + f for f in self.struct_vars[e[1]]]
+                self.check_defined(set(ms), defined, s)
+                self.ret_type = "(%s) * bool" % " * ".join(COQTY[self.struct_vars[e[1]][f]] for f in self.struct_vars[e[1]])
+                return "((%s), ok)" % ", ".join(ms)
+            self.check_defined(uses(s["e"]), defined, s)
             outs = "".join("%s, " % a for a in self.out_arrays)
             if e[0] == "call" and e[1] == "sqrt":
                 t, _, obl = self.ex(e[2][0], "cost")
@@ -1093,8 +1111,9 @@ class Emitter:
         for s0 in walk(self.stmts):
             for e0 in stmt_exprs(s0):
                 used_vars |= uses(e0)
-        members = [(sv + "_" + f, COQTY[ty]) for sv in sorted(self.struct_vars) for f, ty in self.struct_vars[sv].items()
-                   if sv + "_" + f in used_vars]
+        declared_only = {s0["name"] for s0 in walk(self.stmts) if s0["k"] == "structdecl"}
+        members = [(sv + "_" + f, COQTY[ty]) for sv in sorted(self.struct_vars) if sv not in declared_only
+                   for f, ty in self.struct_vars[sv].items() if sv + "_" + f in used_vars]
         params = [("call_" + c, self.call_type(c)) for c in sorted(self.used_calls)] + \
                  [("junk_" + a, "Z -> cost") for a in allocs] + \
                  [(n, COQTY[ty]) for ty, n in self.params if ty != "settings"] + members + \
